@@ -122,6 +122,9 @@ pub struct CaseOut {
     pub inconclusive: Vec<String>,
     /// keys that make the case non-trivial (distinct keys are counted)
     pub nontrivial: Vec<String>,
+    /// number of further distinct non-trivial items of this case that are distinct from all
+    /// other cases by construction (counted, not listed, to keep the records small)
+    pub nontrivial_extra: u64,
     pub counters: BTreeMap<String, u64>,
     pub sample: Option<Value>,
     /// witness material written to the replay file when the case violates
@@ -216,6 +219,7 @@ pub fn worker_main(args: &[String], case_fn: CaseFn) {
                     "viols": c.viols.iter().map(|v| json!({"prop": v.prop, "sig": v.sig, "detail": v.detail})).collect::<Vec<_>>(),
                     "inconclusive": c.inconclusive,
                     "nontrivial": c.nontrivial,
+                    "nontrivial_extra": c.nontrivial_extra,
                     "counters": c.counters,
                     "sample": c.sample,
                     "replay": replay,
@@ -369,6 +373,7 @@ fn spin_site(bt: &str) -> String {
 pub struct Agg {
     pub evaluations: u64,
     pub nontrivial: BTreeSet<String>,
+    pub nontrivial_extra: u64,
     pub counters: BTreeMap<String, u64>,
     pub samples: Vec<Value>,
     /// (sig) -> (count, first detail, first replay)
@@ -641,6 +646,7 @@ fn absorb(spec: &RunSpec, agg: &mut Agg, v: &Value, _variant: &str) {
     for x in v["nontrivial"].as_array().map(|a| a.as_slice()).unwrap_or(&[]) {
         agg.nontrivial.insert(x.as_str().unwrap_or("").to_string());
     }
+    agg.nontrivial_extra += v["nontrivial_extra"].as_u64().unwrap_or(0);
     if let Some(c) = v["counters"].as_object() {
         for (k, n) in c {
             *agg.counters.entry(k.clone()).or_default() += n.as_u64().unwrap_or(0);
@@ -662,7 +668,7 @@ fn finish(spec: &RunSpec, agg: Agg, t0: Instant, wall_exceeded: bool, run_dir: &
         }
     }
     let wall = t0.elapsed().as_secs_f64();
-    let nontrivial = agg.nontrivial.len() as u64;
+    let nontrivial = agg.nontrivial.len() as u64 + agg.nontrivial_extra;
 
     // evidence
     let mut coverage = Map::new();
